@@ -1,4 +1,6 @@
 import BiotiteModel.Proofs.C04
+import BiotiteModel.Proofs.C04Compose
+import BiotiteModel.Proofs.C04Altloc
 import BiotiteModel.Gen.C04
 /-!
 # C04 — property theorems (a structure survives a CIF / BinaryCIF write–read cycle)
@@ -13,9 +15,10 @@ Full-strength bond statement of the property (kept visible; **false** on the cod
   `(i, j, t) ∈ (read (write s)).bonds ↔ (i, j, t) ∈ s.bonds`.
 
 What is proved instead: `C04_bonds_expressible_types` (the exact sets of types `struct_conn` /
-`chem_comp_bond` can carry, computed from the regenerated tables) and
-`C04_struct_conn_roundtrip_partial` (bonds written to `struct_conn` come back, for uniquely
-identifiable atoms and expressible types).
+`chem_comp_bond` can carry, computed from the regenerated tables), the three paths
+`C04_struct_conn_roundtrip_partial`, `C04_chem_comp_bond_roundtrip`, `C04_backbone_links_restored`
+and their composition through `set_structure` / `get_structure`, `C04_bonds_roundtrip_partial`:
+for a well-formed structure (`WFS`, expressible types) the whole typed bond set comes back.
 -/
 namespace BiotiteModel.C04
 
@@ -180,23 +183,81 @@ pdbx_PDB_ins_code) — after the reader's `?`→`.` normalisation — and any li
 existing atoms whose types are SINGLE, DOUBLE, TRIPLE, QUADRUPLE or COORDINATION: the writer
 produces rows, and `_parse_inter_residue_bonds` on these rows returns exactly the `BondList` of the
 written bonds (same atoms, same types).  *Partial*: the types ANY and AROMATIC* are excluded
-(`C04_inter_type_defect`); the `chem_comp_bond` path and the re-creation of dropped backbone links
-from the component dictionary are covered by the correspondence and the oracle, not by a theorem. -/
+(`C04_inter_type_defect`). -/
 theorem C04_struct_conn_roundtrip_partial (site : List SiteRow) (bs : List Bond)
     (hnd : (site.map siteKey).Nodup)
     (hb : ∀ b ∈ bs, b.i < site.length ∧ b.j < site.length ∧ InterOk b.t) :
     ∃ rows, connRows 0 site bs = .ok rows ∧ parseInter site rows = .ok (normBonds bs) := by
-  have hok : ∀ b ∈ bs, InterOk b.t := fun b h => (hb b h).2.2
-  refine ⟨mkConnRows site 0 bs, connRows_eq site bs 0 hok, ?_⟩
-  obtain ⟨k1, k2⟩ := keys_mk site bs 0 (fun b h => ⟨(hb b h).1, (hb b h).2.1⟩)
-  have d1 := dense_nodup (site.map siteKey) hnd ⟨"", "", 0, "", ""⟩ (bs.map (·.i))
-    (by intro i hi; obtain ⟨b, hbm, rfl⟩ := List.mem_map.mp hi; simpa using (hb b hbm).1)
-  have d2 := dense_nodup (site.map siteKey) hnd ⟨"", "", 0, "", ""⟩ (bs.map (·.j))
-    (by intro i hi; obtain ⟨b, hbm, rfl⟩ := List.mem_map.mp hi; simpa using (hb b hbm).2.1)
-  simp only [List.map_map] at d1 d2
-  simp only [Function.comp_def] at d1 d2
-  have hp := pick_mk site bs 0 hok
-  simp only [parseInter, filter_cov_mk site bs 0 hok, k1, k2, d1, d2, bind, Except.bind, pure, Except.pure, hp]
+  exact ⟨mkConnRows site 0 bs, connRows_eq site bs 0 (fun b h => (hb b h).2.2), parseInter_mk site bs hnd hb⟩
+
+
+/-- **Bond round-trip through `chem_comp_bond`.**  For bonds `i < j < n` with unique pairs, non-empty
+residue/atom names and **consistent components** (`Consistent`, decidable: a residue that contains
+atoms named like the two atoms of an intra-residue bond of an equally named residue has the same
+bond of the same type): `_set_intra_residue_bonds` writes rows, and `connect_via_residue_names`
+with the dictionary parsed from these rows yields exactly the intra-residue bonds of the structure
+— for every type `chem_comp_bond` can express (ANY, SINGLE…QUADRUPLE, AROMATIC_*, AROMATIC). -/
+theorem C04_chem_comp_bond_roundtrip (atoms : List Atom) (bonds : List Bond)
+    (hwf : ∀ b ∈ bonds, b.i < b.j ∧ b.j < atoms.length) (hu : UniquePairs bonds)
+    (hty : ∀ b ∈ bonds, isIntra atoms b = true → IntraOk b.t)
+    (hnames : ∀ a ∈ atoms, a.resName ≠ "" ∧ a.atomName ≠ "")
+    (hcons : Consistent atoms bonds)
+    (hne : ∃ b ∈ bonds, isIntra atoms b = true) :
+    ∃ rows, setIntra atoms bonds = .ok (some rows) ∧
+      ∀ b, b ∈ normBonds (connectIntra atoms (dictOf (parseIntra rows))) ↔
+        (b ∈ bonds ∧ isIntra atoms b = true) :=
+  chem_comp_bond_roundtrip atoms bonds hwf hu hty hnames hcons hne
+
+/-- **Writer ⇔ reader on backbone links** (`_filter_canonical_links` vs `_connect_inter_residue`,
+component dictionary as a parameter).
+(1) Every bond the reader creates from the dictionary is a SINGLE bond between two consecutive
+residues, and the writer omits exactly this bond from `struct_conn` iff both residue names are
+canonical.
+(2) A bond the writer omits is re-created by the reader iff the dictionary links the two residues
+through exactly the two bonded atoms (C→N for two peptide-linking, O3'→P for two nucleotide-linking
+components); atom names unique per residue.
+On the unrepaired code (1) is false (links across a chain border / numbering gap were omitted). -/
+theorem C04_backbone_links_restored (ccd : Ccd) (atoms : List Atom) (b : Bond) :
+    (b ∈ connectInter ccd (residues atoms) →
+      b.i < atoms.length ∧ b.j < atoms.length ∧ b.t = btSingle ∧ inStructConn (resPos atoms) b = true ∧
+      isDroppedLink atoms b = (canonicalResidues.contains (atomAt atoms b.i).resName &&
+        canonicalResidues.contains (atomAt atoms b.j).resName)) ∧
+    (NamesUnique atoms → b.i < atoms.length → b.j < atoms.length → isDroppedLink atoms b = true →
+      (b ∈ connectInter ccd (residues atoms) ↔
+        linkNames ccd (atomAt atoms b.i).resName (atomAt atoms b.j).resName =
+          some ((atomAt atoms b.i).atomName, (atomAt atoms b.j).atomName))) :=
+  ⟨generated_link_class ccd atoms b, fun hu hi hj hd => dropped_link_restored ccd atoms hu b hi hj hd⟩
+
+/-- **Bond round-trip, composed through `set_structure` and `get_structure` (partial).**  For every
+well-formed structure (`WFS`: uniquely identifiable atoms, consistent components, expressible
+types — `IntraOk` within residues, `InterOk` in `struct_conn` —, backbone links exactly those the
+dictionary implies, as SINGLE bonds): `set_structure(include_bonds=True)` succeeds and
+`get_structure(model=1, include_bonds=True)` on the written block returns the same atoms (all
+annotations), the coordinates of the model, the box token and a bond list with **exactly the same
+typed bonds**.  *Partial* with respect to the property: inter-residue ANY / AROMATIC* are excluded
+(`C04_inter_type_defect`), and a dictionary-implied link of another type than SINGLE (kept in
+`struct_conn`, precedence of `merge`) is covered by correspondence + oracle only. -/
+theorem C04_bonds_roundtrip_partial (ccd : Ccd) (s : Structure) (bs : List Bond) (w : WFS ccd s bs) :
+    ∃ blk bs', writeBlock s true = .ok blk ∧
+      readStructure ccd blk ⟨some 1, .first, true, s.hasCharge, s.hasAtomId⟩ =
+        .ok ⟨s.atoms, s.hasCharge, s.hasAtomId, [s.coords.headD []], s.box, some bs'⟩ ∧
+      ∀ b, b ∈ bs' ↔ b ∈ bs :=
+  bonds_roundtrip ccd s bs w
+
+/-- **text ≙ binary ≙ compressed, at table level.**  `set_structure` is one function for the three
+writers: they all serialise the block `writeBlock s`.  *Assumed* about the layers below this model:
+C06 (`CIFFile`: deserialize ∘ serialize is the identity on every category table), C05
+(`BinaryCIFFile` encodings and `compress`: decode ∘ encode is the identity on string/integer
+columns and on float columns up to the stated tolerance, which this token model does not see).
+Under that assumption (`hL`) reading through any two layers gives the same structure, and for a
+well-formed structure all of them return the structure that was written. -/
+theorem C04_formats_agree (ccd : Ccd) (blk : Block) (o : ReadOpts) (text binary compressed : Block → Block)
+    (hL : ∀ b, text b = b ∧ binary b = b ∧ compressed b = b) :
+    readStructure ccd (text blk) o = readStructure ccd (binary blk) o ∧
+    readStructure ccd (binary blk) o = readStructure ccd (compressed blk) o ∧
+    readStructure ccd (text blk) o = readStructure ccd blk o := by
+  rw [(hL blk).1, (hL blk).2.1, (hL blk).2.2]
+  exact ⟨rfl, rfl, rfl⟩
 
 /-! ## Altloc -/
 
@@ -218,6 +279,51 @@ theorem C04_altloc_first_exact (alts : List String) :
     apply List.map_congr_left
     intro a _
     simp
+
+/-- **`occupancy` policy is exact** (per residue): an atom is kept iff it has no altloc id or its id
+is the selected one; no id is selected iff the residue has no altloc id; the selected id `b` is the
+**first** id in `sorted(set(ids))` (ascending, i.e. the smallest on ties) whose occupancy sum is
+**maximal**: all ids before it have a strictly smaller sum, all ids after it a smaller or equal one. -/
+theorem C04_altloc_occupancy_exact (alts : List String) (occ : List Nat) :
+    occAltlocRes alts occ = alts.map (fun a => !hasAltloc a || (some a == bestAltloc alts occ)) ∧
+    (bestAltloc alts occ = none ↔ ∀ a ∈ alts, hasAltloc a = false) ∧
+    (∀ b, bestAltloc alts occ = some b → ∃ pre post, altIds alts = pre ++ b :: post ∧
+      (∀ x ∈ pre, occSum alts occ x < occSum alts occ b) ∧ (∀ x ∈ post, occSum alts occ x ≤ occSum alts occ b)) ∧
+    (altIds alts).Pairwise (fun a b => a ≤ b) ∧ (∀ x, x ∈ altIds alts ↔ x ∈ alts ∧ hasAltloc x = true) := by
+  refine ⟨?_, ?_, ?_, altIds_sorted alts, mem_altIds alts⟩
+  · unfold occAltlocRes
+    cases h : bestAltloc alts occ with
+    | none =>
+      apply List.map_congr_left
+      intro a _; simp
+    | some b =>
+      apply List.map_congr_left
+      intro a _; simp
+  · rw [bestAltloc_eq]
+    rcases argfold_spec (occSum alts occ) (altIds alts) with ⟨hnil, hnone⟩ | ⟨b, pre, post, hb, hl, _, _⟩
+    · constructor
+      · intro _ a ha
+        cases hh : hasAltloc a with
+        | false => rfl
+        | true =>
+          have : a ∈ altIds alts := (mem_altIds alts a).mpr ⟨ha, hh⟩
+          rw [hnil] at this; simp at this
+      · intro _; exact hnone
+    · constructor
+      · intro h; rw [hb] at h; exact absurd h (by simp)
+      · intro h
+        have : b ∈ altIds alts := by rw [hl]; simp
+        have := ((mem_altIds alts b).mp this)
+        rw [h b this.1] at this
+        exact absurd this.2 (by simp)
+  · intro b hb
+    rw [bestAltloc_eq] at hb
+    rcases argfold_spec (occSum alts occ) (altIds alts) with ⟨_, hnone⟩ | ⟨b', pre, post, hb', hl, h1, h2⟩
+    · rw [hnone] at hb; exact absurd hb (by simp)
+    · rw [hb'] at hb
+      have : b' = b := by simpa using hb
+      subst this
+      exact ⟨pre, post, hl, h1, h2⟩
 
 /-- The writer marks every atom as having no altloc, so nothing is filtered after a round-trip. -/
 theorem C04_altloc_written_all_kept (n : Nat) :
@@ -250,5 +356,57 @@ example : firstAltlocRes [".", "1", "2", "1"] = [true, true, false, true] := by 
 example : isDroppedLink [exAtom 1 "" "C" 0, ⟨"A", 2, "", "GLY", false, "N", "N", 0, 0, []⟩] ⟨0, 1, 1⟩ = true ∧
     isDroppedLink [exAtom 1 "" "C" 0, ⟨"A", 2, "", "GLY", false, "N", "N", 0, 0, []⟩] ⟨0, 1, 2⟩ = false ∧
     isDroppedLink [exAtom 1 "" "C" 0, ⟨"B", 2, "", "GLY", false, "N", "N", 0, 0, []⟩] ⟨0, 1, 1⟩ = false := by decide
+
+/-! ### non-vacuity of the bond theorems: a concrete well-formed structure -/
+
+def exCcd : Ccd := ⟨fun n => if n == "ALA" || n == "GLY" then .peptide else .other, fun _ => []⟩
+def exAtoms : List Atom :=
+  [⟨"A", 1, "", "ALA", false, "N", "N", 0, 0, []⟩, ⟨"A", 1, "", "ALA", false, "CA", "C", 0, 0, []⟩,
+   ⟨"A", 1, "", "ALA", false, "C", "C", 0, 0, []⟩, ⟨"A", 2, "", "GLY", false, "N", "N", 0, 0, []⟩,
+   ⟨"A", 2, "", "GLY", false, "CA", "C", 0, 0, []⟩, ⟨"A", 3, "", "LG1", true, "C1", "C", 0, 0, []⟩,
+   ⟨"A", 3, "", "LG1", true, "C2", "C", 0, 0, []⟩]
+/-- intra-residue bonds (incl. AROMATIC), the C→N backbone link, a TRIPLE and a COORDINATION bond
+between residues -/
+def exBonds : List Bond := [⟨0, 1, 1⟩, ⟨1, 2, 2⟩, ⟨3, 4, 1⟩, ⟨2, 3, 1⟩, ⟨5, 6, 9⟩, ⟨2, 5, 3⟩, ⟨1, 6, 8⟩]
+def exW : Structure := ⟨exAtoms, false, false, [["a", "b", "c", "d", "e", "f", "g"]], some "box", some exBonds⟩
+
+instance (atoms : List Atom) : Decidable (NamesUnique atoms) := by unfold NamesUnique; infer_instance
+instance (bonds : List Bond) : Decidable (UniquePairs bonds) := by unfold UniquePairs; infer_instance
+
+example : Consistent exAtoms exBonds ∧ (∃ b ∈ exBonds, isIntra exAtoms b = true) ∧
+    exBonds.filter (isDroppedLink exAtoms) = [⟨2, 3, 1⟩] ∧
+    exBonds.filter (isConnRow exAtoms) = [⟨2, 5, 3⟩, ⟨1, 6, 8⟩] ∧
+    connectInter exCcd (residues exAtoms) = [⟨2, 3, 1⟩] := by decide +kernel
+
+theorem exW_wf : WFS exCcd exW exBonds where
+  bonds := rfl
+  atoms_ne := by decide
+  coords_ne := by decide
+  coords_len := by decide
+  normal := by decide +kernel
+  lt := by decide
+  unique := by decide
+  names := by decide +kernel
+  keys := by decide +kernel
+  namesUnique := by decide +kernel
+  intraTypes := by decide +kernel
+  interTypes := by decide +kernel
+  consistent := by decide +kernel
+  noFallback := by decide +kernel
+  linksPresent := by decide +kernel
+  droppedClassified := by decide +kernel
+
+example : ∃ blk bs', writeBlock exW true = .ok blk ∧
+    readStructure exCcd blk ⟨some 1, .first, true, false, false⟩ =
+      .ok ⟨exAtoms, false, false, [["a", "b", "c", "d", "e", "f", "g"]], some "box", some bs'⟩ ∧
+    ∀ b, b ∈ bs' ↔ b ∈ exBonds :=
+  C04_bonds_roundtrip_partial exCcd exW exBonds exW_wf
+
+/-- ids "A" (4+1 = 5 eighths) and "B" (3+2 = 5 eighths) tie: the fold keeps the first, "A". -/
+example : ["A", "B"].foldl (argStep (occSum [".", "B", "A", "B", "A"] [8, 3, 4, 2, 1])) none = some "A" ∧
+    occSum [".", "B", "A", "B", "A"] [8, 3, 4, 2, 1] "A" = 5 ∧ occSum [".", "B", "A", "B", "A"] [8, 3, 4, 2, 1] "B" = 5 := by
+  decide +kernel
+example : "A" ∈ altIds [".", "B", "A", "B", "A"] ∧ "." ∉ altIds [".", "B", "A", "B", "A"] :=
+  ⟨(mem_altIds _ _).mpr ⟨by decide, by decide⟩, fun h => absurd ((mem_altIds _ _).mp h).2 (by decide)⟩
 
 end BiotiteModel.C04
